@@ -176,7 +176,10 @@ def compare(res, ref) -> list[str]:
 
 
 def main() -> int:
-    os.chdir(tempfile.mkdtemp(prefix="c26c_demo_"))
+    _d = tempfile.mkdtemp(prefix="c26c_demo_")
+    os.chdir(_d)
+    import atexit, shutil
+    atexit.register(lambda: (os.chdir("/"), shutil.rmtree(_d, ignore_errors=True)))
     torch.set_num_threads(1)
 
     ref, rng_states, descriptions, jumps = reference_run()
